@@ -17,7 +17,8 @@ POLCODE = {'simple': 0, 'quoted': 1, 'quoted_rfc': 2, 'whitespace': 3, 'monocolu
 IN_CFG = [('simple', ','), ('quoted', ','), ('quoted_rfc', ','), ('quoted', ';'), ('whitespace', ' '), ('monocolumn', ''), ('simple', '::')]
 OUT_CFG = [('simple', ','), ('simple', ';'), ('quoted', ','), ('quoted_rfc', ','), ('simple', '\t'), ('quoted', '::'), ('monocolumn', '')]
 QUERIES = [('select *', 'select *', 'star'), ('select *, None', 'select *, null', 'star_none'), ('select [a1, None], NR', 'select [a1, null], NR', 'list_none'), ("select 'x'", "select 'x'", 'const')]
-INVALID = [[0x61, 0x2C, 0xC3], [0xC3, 0x28, 0x0A], [0x61, 0x0A, 0xE2, 0x82], [0xFF, 0x0A, 0x61], [0xED, 0xA0, 0x80], [0x80, 0x0A], [0x61, 0x2C, 0x62, 0x0A, 0xF0, 0x9D, 0x84]]
+INVALID = [[0x61, 0x2C, 0xC3], [0xC3, 0x28, 0x0A], [0x61, 0x0A, 0xE2, 0x82], [0xFF, 0x0A, 0x61], [0xED, 0xA0, 0x80], [0x80, 0x0A], [0x61, 0x2C, 0x62, 0x0A, 0xF0, 0x9D, 0x84],
+           [0xF0, 0x9F, 0x98], [0x61, 0x0A, 0xF0, 0x9F, 0x98, 0x0A], [0xE2, 0x82, 0x2C, 0x61], [0xF0, 0x9F, 0x98, 0x2C, 0xF0, 0x9F, 0x98]]      # incl. characters cut after their last-but-one byte
 
 
 def gen_cases(ctx):
@@ -42,8 +43,9 @@ def gen_cases(ctx):
                       'query': q, 'queryjs': qjs, 'qk': qk, 'bulk': r.random() < 0.3, 'part': 'csvwarn'})
     for b in INVALID:
         for in_pol, in_dlm in IN_CFG[:3]:
-            cases.append({'data': b, 'enc': 'utf-8', 'in_pol': in_pol, 'in_dlm': in_dlm, 'out_pol': 'simple', 'out_dlm': ',',
-                          'query': 'select *', 'queryjs': 'select *', 'qk': 'star', 'bulk': False, 'part': 'csvwarn'})
+            for bulk in (False, True):         # rbql-js: the stream decoder and the bulk path's own validity check
+                cases.append({'data': b, 'enc': 'utf-8', 'in_pol': in_pol, 'in_dlm': in_dlm, 'out_pol': 'simple', 'out_dlm': ',',
+                              'query': 'select *', 'queryjs': 'select *', 'qk': 'star', 'bulk': bulk, 'part': 'csvwarn'})
     return cases
 
 
@@ -118,6 +120,7 @@ def run(ctx, theorem):
     ctx.compare([dict(c, impl='py') for c in cases], exp['py'], gp, theorem, rel=rel, describe=describe, corrupt=corrupt)
     ctx.compare([dict(c, impl='js') for c in cases], exp['js'], gj, theorem, rel=rel, describe=describe, corrupt=corrupt)
     ctx.cross_check_vm(250, rargs, rres, n=30)
+    run_color(ctx, theorem)
     ctx.count(2 * len(cases))
     for c, e in zip(cases, exp['py']):
         if e.get('error'):
@@ -137,7 +140,34 @@ def run(ctx, theorem):
             break
 
 
+def run_color(ctx, theorem):
+    """colour output (an option of the Python writer): the colour codes prepended to the fields must not be taken for field content -
+    the separator warning iff some field contains the delimiter, the None warning iff a None was written (harness-side specification)"""
+    r = ctx.rng
+    cases = []
+    for _ in range(150 if ctx.tier == 'quick' else 20000):
+        pol, dlm = r.choice([('simple', ';'), ('simple', ','), ('simple', '['), ('simple', 'm'), ('simple', '1'), ('whitespace', ' '), ('quoted', ';'), ('simple', '\t')])
+        ncol = r.choice([1, 2, 3, 9, 10, 12])
+        cells = ['a', 'b', 'x y', '', 'q;r', 'u,v', '3', 'm1', None]
+        rows = [[r.choice(cells) for _ in range(ncol)] for _ in range(r.randint(1, 3))]
+        lossy = pol in ('simple', 'whitespace')
+        exp = sorted((['separator'] if lossy and any(x is not None and dlm in x for row in rows for x in row) else [])
+                     + (['none'] if any(x is None for row in rows for x in row) else []))
+        cases.append({'pol': pol, 'dlm': dlm, 'rows': rows, 'exp': exp, 'part': 'csvcolor'})
+    got = lib.run_impl_py('c14color', cases, shards=4)
+    ctx.compare(cases, [{'warnings': c['exp'], 'error': None} for c in cases], got, theorem + ' (colour output: supplementary specification)',
+                describe=lambda c, e, g: 'CSVWriter(colorize_output=True, %s, %r) over rows %s: expected warnings %s, implementation %s' % (
+                    c['pol'], c['dlm'], json.dumps(c['rows']), json.dumps(e), json.dumps(g)))
+    ctx.count(len(cases))
+    ctx.stat('colour_output_cases', len(cases))
+
+
 def replay(ctx, case, theorem):
+    if case.get('part') == 'csvcolor':
+        got = lib.run_impl_py('c14color', [case], shards=1)
+        ctx.count()
+        ctx.compare([case], [{'warnings': case['exp'], 'error': None}], got, theorem)
+        return
     c = {k: v for k, v in case.items() if k != 'impl'}
     exp, _a, _r = expected([c])
     impl = case.get('impl', 'py')
